@@ -381,7 +381,11 @@ func (x *Exec) globalAddr(g *ssa.Global) Val {
 func (x *Exec) constVal(c *ssa.Const) Val {
 	t := c.Type()
 	if c.Value == nil {
-		return zeroVal(t)
+		z := zeroVal(t)
+		if z.K == VSlice && isOptionSlice(t) {
+			z.Abs = &OptAbs{Base: IntT(0)}
+		}
+		return z
 	}
 	switch c.Value.Kind() {
 	case constant.Bool:
@@ -862,6 +866,13 @@ func (x *Exec) bindResult(fr *Frame, cv ssa.Value, res []Val) {
 func (x *Exec) doAlloc(st *State, et types.Type, pt types.Type) Val {
 	r := x.alloc(st)
 	if at, ok := et.Underlying().(*types.Array); ok {
+		if b, isB := at.Elem().Underlying().(*types.Basic); isB && b.Kind() == types.Uint8 {
+			// a byte array is a bytes object (content of that length)
+			c := x.fresh(st, "bytearr", SStr)
+			st.assume(Eq(StrLen(c), IntT(at.Len())))
+			x.writeComp(st, bytesArr, SStr, r, c)
+			return scalar(r, pt)
+		}
 		x.zeroRow(st, at.Elem(), r)
 		return scalar(r, pt)
 	}
@@ -1376,6 +1387,11 @@ func (x *Exec) sliceOp(st *State, fr *Frame, v *ssa.Slice) Val {
 			}
 		}
 		return r
+	case base.K == VScalar && isPtrToArray(v.X.Type()) && isByteSlice(v.Type()):
+		if lo != nil || hi != nil {
+			x.note(x.Outside, "partial slice of a byte array in "+funcKey(fr.Fn))
+		}
+		return scalar(base.T, v.Type())
 	case base.K == VScalar && isPtrToArray(v.X.Type()):
 		at := v.X.Type().Underlying().(*types.Pointer).Elem().Underlying().(*types.Array)
 		n := IntT(at.Len())
